@@ -10,7 +10,7 @@ import (
 
 // ---- filter configurations ---------------------------------------------------------------------------
 
-// 46 fixed configurations (index = tag cfg:kNN); every one is exercised in the quick tier.
+// 55 fixed configurations (index = tag cfg:kNN); every one is exercised in the quick tier.
 var scopeCfgs = []scInput{
 	{},                          // 0 defaults only (archive.org, archive-it.org)
 	{EH: []string{"ads."}},      // 1
@@ -62,6 +62,17 @@ var scopeCfgs = []scInput{
 	// letter can never match (what the code does today)
 	{EH: []string{"Example.COM", "ADS."}}, // excludes nothing
 	{IH: []string{"Example.com"}},         // 45: admits nothing
+	// --domains-crawl next to the filters: a hop-count option with its own matcher (exact host or sub-domain,
+	// URL, regular expression); it never widens the include filter and never lifts an exclusion
+	{IH: []string{"a.example"}, DC: []string{"b.example"}},                   // 46: b.example, img.b.example stay out
+	{IS: []string{"/keep/"}, DC: []string{"example.com"}},                   // www./cdn./ads.example.com outside /keep/ stay out
+	{IH: []string{"cdn."}, DC: []string{"example.com", "a.example"}},        // cdn.example.com is both; www.example.com only crawled
+	{IH: []string{"a.example"}, IS: []string{".png"}, DC: []string{"https://www.example.com", `^https?://[^/]*b\.example/`}}, // URL and expression entries
+	{DC: []string{"example.com"}},                                           // 50: no include filter: nothing changes
+	{EH: []string{"ads."}, ES: []string{"logout"}, DC: []string{"example.com"}}, // exclusions stay in force on a crawled domain
+	{IH: []string{"example.com"}, DC: []string{"example.com"}},              // the same domain in both
+	{IH: []string{"b.example"}, DC: []string{"127.0.0.1", "localhost.", "archive.org", "nodot.x"}}, // nor re-admits what NormalizeURL / the defaults refuse
+	{IH: []string{"zzz.invalid"}, DC: []string{"a.example", "b.example", "example.com", ""}},     // 54: include filter admits nothing; the empty expression knows every URL
 }
 
 var (
@@ -69,6 +80,7 @@ var (
 	poolIS = []string{"/Docs/", "/KEEP/", "/keep/", ".png", ".css", "https://", "?id=", "user", "%41"}
 	poolEH = []string{"Example.COM", "ads.", "b.example", "evil", "example.com:8080", "127.0.0.2", "xn--", ".", "cdn.example.com", "archive.org", "EXAMPLE", "bad"}
 	poolES = []string{"/Private/", "sessionID=", "LOGOUT", "logout", "/private/", ".pdf", "%20", "#", "", "id=7", "@"}
+	poolDC = []string{"example.com", "a.example", "b.example", "cdn.example.com", "https://www.example.com", "http://a.example/keep/a.png", `^https?://[^/]*\.example/`, `\.png$`, "archive.org", "bücher.example", "xn--bcher-kva.example"}
 	poolRE = []string{`\?flag=$`, `\?flag$`, `\+`, `\.pdf$`, `^https?://[^/]*\.bad\.`, `/private/`, `(?i)logout`, `[0-9]{4}`, `^http://`, ``, `\.(png|css)(\?|$)`, `@`}
 )
 
@@ -238,6 +250,15 @@ func plantsFor(in *scInput) []string {
 			out = append(out, "http://"+v+sfx+"/pl/h.png")
 		}
 	}
+	// --domains-crawl: references on every crawled domain (exact host, sub-domain, look-alike) and every crawled URL
+	for _, f := range in.DC {
+		switch {
+		case strings.Contains(f, "://") && !strings.ContainsAny(f, `^$\[(`):
+			out = append(out, f, strings.TrimRight(f, "/")+"/pl/dc.png")
+		case f != "" && !strings.ContainsAny(f, `/?# ^$\[(`) && strings.Contains(f, "."):
+			out = append(out, "http://"+f+"/pl/dc.html", "https://sub."+f+"/pl/dc.css", "//"+f+"/keep/dc.png", "http://not"+f+"/pl/dc.js")
+		}
+	}
 	return out
 }
 
@@ -364,6 +385,9 @@ func genScope(r *Rng, i int, tier string) string {
 			ES: pickSome(r, poolES, 2), RE: pickSome(r, poolRE, 2)}
 		if r.Chance(50) {
 			in.IH, in.IS = nil, nil
+		}
+		if r.Chance(30) {
+			in.DC = pickSome(r, poolDC, 3)
 		}
 	}
 	// spread the expressions of a single-file configuration over 1-3 files (sometimes with an empty
